@@ -48,6 +48,17 @@ Theorem C01_program :
 Proof. exact program_conservation. Qed.
 Print Assumptions C01_program.
 
+(* (4) ... and every uid a stage records in its ledger was discarded under that stage's documented rule, on an
+   event of the input: Prep slice without keep_prep, --drop_globals name, --event_filter match, -F without X,
+   -O drop removal, or a non-metadata event rejected by the limiter; everything exported is an input event. *)
+Theorem C01_drops_documented :
+  forall (o : aopts) (es : list aev) (v : nat -> bool) (P : prof),
+    let '(out, st, gs) := run_full o v P es in
+    Forall (from_input es) out /\
+    (forall g, In g gs -> Forall (led_ok o es) (c_led (st (cid g)))).
+Proof. exact drops_documented. Qed.
+Print Assumptions C01_drops_documented.
+
 (* non-vacuity: a stream with a Prep slice, a global-named slice, a filtered slice and a slice beyond the count
    limit, run through the full default pipeline with --drop_globals: the four are recorded under their rules and
    the remaining two are exported *)
